@@ -1,6 +1,6 @@
 #!/bin/bash
 # usage: SEED_BASE=/tmp/seedN tools/run_round.sh "<ID checks...>" ...   — try every seed of a round in turn (they share /repo, so never in parallel)
-cd /verif
+cd ${VERIF:-/verif}
 for spec in "$@"; do
   set -- $spec
   tools/try_seed.sh "$@" > $SEED_BASE/$1.try.log 2>&1
